@@ -15,3 +15,4 @@ import MqttVerif.Model.Errors
 import MqttVerif.Model.Inbound
 import MqttVerif.Spec.InboundSpec
 import MqttVerif.Model.Retry
+import MqttVerif.Model.BaseClient
